@@ -160,6 +160,12 @@ struct BitsDriver : DriverBase<BitsDriver<B, W, IsBitset>> {
                 if (std::string(str2.data(), str2.size()) != want2) {
                     bad("to_string-custom", static_cast<long long>(str2.size()), static_cast<long long>(W));
                 }
+                // a raw 0 / 1 byte image: the NUL character is a character like any other
+                auto const str3  = cv.template to_string<W>('\0', '\1');
+                auto const want3 = m.to_string('\0', '\1');
+                if (std::string(str3.data(), str3.size()) != want3) {
+                    bad("to_string-raw-bytes", static_cast<long long>(str3.size()), static_cast<long long>(W));
+                }
             }
         });
         if (!ok) {
@@ -740,6 +746,87 @@ struct BitsDriver : DriverBase<BitsDriver<B, W, IsBitset>> {
     }
 };
 
+// width 0: there is no word to mask and no bit to address, only the whole-set operations and observers
+struct ZeroBitsDriver : DriverBase<ZeroBitsDriver> {
+    using Base = DriverBase<ZeroBitsDriver>;
+    using B0   = etl::bitset<0>;
+    using BB0  = etl::basic_bitset<0, unsigned char>;
+
+    ZeroBitsDriver(Plan const& p, Ctx& c)
+        : Base(p, c)
+    {
+    }
+
+    void resync(int) { }
+
+    auto check_state(int, char const*, char const*) -> bool { return true; }
+
+    template <typename X>
+    void drive(Step const& st, X& x, char const* what)
+    {
+        bool all = false, any = true, none = false;
+        size_t count = 1, size = 1;
+        bool eq = false;
+        bool ok = call(-1, false, false, [&] {
+            switch (st.op) {
+            case 0: x.set(); break;
+            case 1: x.reset(); break;
+            case 2: x.flip(); break;
+            default: break;
+            }
+            X const other{};
+            all   = x.all();
+            any   = x.any();
+            none  = x.none();
+            count = x.count();
+            size  = x.size();
+            eq    = x == other;
+        });
+        std::bitset<0> const ref;
+        if (ok && (all != ref.all() || any != ref.any() || none != ref.none() || count != 0 || size != 0 || !eq)) {
+            ctx.violation("C17", std::string("diff:zero-width:") + what, "a bitset of width 0 does not answer like std::bitset<0>");
+        }
+    }
+
+    void run()
+    {
+        B0* b   = new (arena_prepare(0, sizeof(B0), plan.cfg, 1, alignof(B0))) B0{};
+        BB0* bb = new (arena_prepare(1, sizeof(BB0), plan.cfg, 2, alignof(BB0))) BB0{};
+        for (size_t i = 0; i < plan.steps.size() && !ctx.stop; ++i) {
+            Step const& st = plan.steps[i];
+            ctx.step       = static_cast<int>(i);
+            g_crash.step   = ctx.step;
+            begin_op(ops()[static_cast<size_t>(st.op)].name, static_cast<int>(st.a % 2));
+            if (st.a % 2 == 0) {
+                drive(st, *b, "bitset");
+            } else {
+                drive(st, *bb, "basic_bitset");
+            }
+            for (int s = 0; s < 2; ++s) {
+                if (!arena_guards_ok(s)) {
+                    ctx.violation("C02", "memory:guard-damaged", "a width-0 bitset wrote outside itself");
+                    arena_guards_repair(s);
+                }
+            }
+            ++ctx.stateChanging;
+            ++ctx.boundaryEvents;
+            if (g_counting) {
+                states().insert(hstr("bitset<0>"));
+                transitions().insert(mix64(hstr(ctx.op)));
+            }
+            ctx.log.nl();
+        }
+        arena_retire(0);
+        arena_retire(1);
+    }
+
+    static auto ops() -> std::vector<OpDef> const&
+    {
+        static std::vector<OpDef> const o = {{"set_all", 3}, {"reset_all", 2}, {"flip_all", 3}, {"observe", 2}};
+        return o;
+    }
+};
+
 template <size_t W>
 void add_bitset()
 {
@@ -814,6 +901,19 @@ void register_bits_0()
     add_bitset<127>();
     add_bitset<128>();
     add_bitset<129>();
+    {
+        Scenario s;
+        s.family   = "bits";
+        s.name     = "bitset<0>";
+        s.ops      = ZeroBitsDriver::ops();
+        s.props    = {"C17", "C02"};
+        s.maxSteps = 8;
+        s.run      = [](Plan const& p, Ctx& c) {
+            ZeroBitsDriver d(p, c);
+            d.run();
+        };
+        registry().push_back(std::move(s));
+    }
 }
 
 auto main(int argc, char** argv) -> int
